@@ -419,11 +419,11 @@ func main() {
 		"exploration is exhaustive within the stated deviation bound (preemptions + non-first select cases + early timers), not over all schedules",
 	}
 	bound := harness.Pick(c, 2, 3)
-	budget := harness.Pick(c, 12*time.Second, 30*time.Minute)
+	budget := harness.Pick(c, 30*time.Second, 30*time.Minute)
 	specs := family(c)
 	var pb, db []string
 	for _, sp := range specs {
-		if sp.rev || len(sp.writers) > 1 {
+		if sp.rev || len(sp.writers) > 1 || strings.HasPrefix(sp.dis, "sdl") {
 			db = append(db, sp.String())
 		} else {
 			pb = append(pb, sp.String())
@@ -440,7 +440,7 @@ func main() {
 	}
 	// 3-4 thread scenarios: preemption bounding; 5-7 thread scenarios: delay bounding (one more deviation)
 	fold(harness.ExploreBatch("pipe", pb, bound, budget, false))
-	fold(harness.ExploreBatch("pipe", db, bound+1, budget, true))
+	fold(harness.ExploreBatch("pipe", db, harness.Pick(c, 2, 3), budget, true))
 	c.Extra["scenarios"] = len(specs)
 	c.Extra["deviation_bound"] = bound
 	c.Finish()
